@@ -239,6 +239,9 @@ func Gosched() {
 	runtime.Gosched()
 }
 
+// InRun reports whether the caller is a task of a scheduled run (and not the idle scheduler).
+func InRun() bool { return isActive() }
+
 // Concurrent reports whether the caller runs inside a scheduled run that has (or had) more than one task.
 func Concurrent() bool { return isActive() && getCur().count() > 1 }
 
